@@ -364,7 +364,7 @@ var c03Profile = &sim.Profile{
 func init() {
 	register(&Check{
 		ID: "C03", Level: "exploration",
-		Rule:  "histories over random load orders of lock/confirm/remember relative to the login modules and of totp/sms: correct and incorrect attempts on every login path, lock by failures / manually / expiry by clock advance placed at LockDuration-1ns and +1ns, lock acquired between the password and the 2FA step, re-started confirmation, unconfirmed accounts created by register/seeding/OAuth2. Oracle: storage is read BEFORE each request (Locked>now on the frozen virtual clock, Confirmed); if an interactive flow ends with uid=U for such an account, or the probe behind lock/confirm middleware runs for such a session user, it is a violation. In worlds with a second instance in the process, a login-type request that causes backend calls on that instance is a violation (the flow was handled by the other instance's modules; this instance's lock/confirm were not consulted). (i') The second-factor step of a session that already names the account (the factor was switched on for the account after it logged in) must not take a locked / unconfirmed account to second-factor authentication. After a successful confirm.StartConfirmation the account is stored unconfirmed with a fresh selector (a re-started confirmation counts from then on). distinct_nontrivial = distinct (flow, class, locked/unconfirmed account state, session state, mode, load order, outcome) signatures for locked or unconfirmed accounts only.",
+		Rule:  "histories over random load orders of lock/confirm/remember relative to the login modules and of totp/sms: correct and incorrect attempts on every login path, lock by failures / manually / expiry by clock advance placed at LockDuration-1ns and +1ns, lock acquired between the password and the 2FA step, re-started confirmation, unconfirmed accounts created by register/seeding/OAuth2. Oracle: storage is read BEFORE each request (Locked>now on the frozen virtual clock, Confirmed); if an interactive flow ends with uid=U for such an account, or the probe behind lock/confirm middleware runs for such a session user, it is a violation. In worlds with a second instance in the process, a login-type request that causes backend calls on that instance is a violation (the flow was handled by the other instance's modules; this instance's lock/confirm were not consulted). (i') The second-factor step of a session that already names the account (the factor was switched on for the account after it logged in) must not take a locked / unconfirmed account to second-factor authentication. After a successful confirm.StartConfirmation the account is stored unconfirmed with a fresh selector (a re-started confirmation counts from then on). Guarded routes are also requested with OPTIONS dressed as a CORS preflight (Access-Control-Request-Method, Origin). distinct_nontrivial = distinct (flow, class, locked/unconfirmed account state, session state, mode, load order, outcome) signatures for locked or unconfirmed accounts only.",
 		Units: func(t string) int { return tierN(t, 800, 30000) },
 		Run: func(c *RunCtx, unit int) {
 			r := Rng(c.Seed, "C03", unit)
